@@ -19,9 +19,9 @@ from .c01 import V32
 ID = "C09"
 M32 = 0xFFFFFFFF
 M64 = (1 << 64) - 1
-LANE = list(V32) + [v for v in (0x7F7F7F7F, 0x80808080, 0x007F0080, 0x7FFF8000, 0x80007FFF, 0x00010001, 0xFFFF0001,
+LANE = list(V32) + [v for v in (0x7F7F7F7F, 0x80808080, 0x80008000, 0x007F0080, 0x7FFF8000, 0x80007FFF, 0x00010001, 0xFFFF0001,
                                 0x0000FFFF, 0xFFFF0000) if v not in V32]
-LANEQ = [0, 1, 0x10000, 0x7FFFFFFF, 0x80000000, 0xFFFFFFFF, 0x7FFF8000, 0x80007FFF, 0x80808080, 0x7F7F7F7F, 0xFFFF0001,
+LANEQ = [0, 1, 0x10000, 0x7FFFFFFF, 0x80000000, 0xFFFFFFFF, 0x7FFF8000, 0x80007FFF, 0x80008000, 0x80808080, 0x7F7F7F7F, 0xFFFF0001,
          0x007F0080]
 ACC32 = {"quick": [0, 1, 0x7FFFFFFF, 0x80000000, 0xFFFFFFFF],
          "thorough": [0, 1, 0x7FFFFFFF, 0x80000000, 0xFFFFFFFF, 0x10000, 0xFFFF0001, 0x7FFF8000]}
